@@ -236,6 +236,19 @@ func (p *processor) process(in ion.Reader) error {
 			}
 		}
 
+		if in.IsNull() {
+			// null and typed nulls (null.int, null.struct, ...) carry no value to copy.
+			if in.Type() == ion.NullType {
+				err = p.out.WriteNull()
+			} else {
+				err = p.out.WriteNullType(in.Type())
+			}
+			if err != nil {
+				return p.error(write, err)
+			}
+			continue
+		}
+
 		switch in.Type() {
 		case ion.NullType:
 			err = p.out.WriteNull()
